@@ -201,6 +201,14 @@ class LazyEvaluatedKernelTensor(LinearOperator):
         else:
             dim_index = _noop_index
 
+        # A slice of a broadcast (size-1) batch dimension does not raise an IndexError, it silently selects
+        # nothing: inputs with such a dimension are expanded (a view) before the batch indices are applied
+        if len(batch_indices):
+            if 1 in x1.shape[:-2] and x1.shape[:-2] != batch_shape:
+                x1 = x1.expand(*batch_shape, *x1.shape[-2:])
+            if 1 in x2.shape[:-2] and x2.shape[:-2] != batch_shape:
+                x2 = x2.expand(*batch_shape, *x2.shape[-2:])
+
         # Get the indices of x1 and x2 that matter for the kernel
         # Call x1[*batch_indices, row_index, :]
         try:
